@@ -18,3 +18,4 @@ def rules(ctx):
     S.c10_rules(ctx)
     S.c02_r4_who_frees(ctx)
     S.c06_r1_freed_merged(ctx)
+    S.compaction_progress_rules(ctx)
